@@ -1,3 +1,10 @@
 import GoRedisModel.Properties.C05
 open GoRedis
-#print axioms C05_placeholder
+#print axioms C05_dispatch_table
+#print axioms C05_reply_is_handler_result
+#print axioms C05_exactly_one_call
+#print axioms C05_set
+#print axioms C05_kv_last_wins
+#print axioms C05_list_order_preserved
+#print axioms C05_unknown_command
+#print axioms C05_case_insensitive
